@@ -160,9 +160,14 @@ func ReportElement(dbStream io.Reader, rec ReportElementConfig) error {
 	if err != nil {
 		return err
 	}
+	names := make([]string, 0, len(nl))
+	for name := range nl {
+		names = append(names, name)
+	}
+	sort.Strings(names)
 	var list []shared.Element
-	for name, node := range nl {
-		for _, el := range node.Elements {
+	for _, name := range names {
+		for _, el := range nl[name].Elements {
 			if el.Name == rec.ElementName {
 				list = append(list, shared.NewElement(name, el.Value))
 			}
